@@ -98,7 +98,7 @@ def handleC04Core (j : Json) : Except String Verdict := do
   -- active range of an uncompressed operand: [la, sa) (la defaults to 0)
   let la := (fNat j "la").toOption.getD 0; let lb := (fNat j "lb").toOption.getD 0
   let pa := presentRef fa la sa dflt d a
-  let pb := presentRef fb lb sb dflt d b
+  let pb := presentRef fb lb sb (fIntD j "dfltB" dflt) d b
   let pre := wfB (d + 1) a && wfB (d + 1) b
   if !pre then return { agree := true, spec := true, tags := ["OUT_OF_MODEL"] }
   let tags := mergeTags (pa.map (fun e => (e.1, 0))) (pb.map (fun e => (e.1, 0)))
